@@ -247,13 +247,18 @@ class NxMixedGraph:
         :return: A latent variable DAG.
         """
         self.raise_on_counterfactual()
-        return _latent_dag(
+        rv = _latent_dag(
             di_edges=self.directed.edges(),
             bi_edges=self.undirected.edges(),
             prefix=prefix,
             start=start,
             tag=tag,
         )
+        # nodes that are in no edge are observed nodes of the DAG, too
+        for node in self.nodes():
+            if node not in rv:
+                rv.add_node(node, **{DEFAULT_TAG if tag is None else tag: False})
+        return rv
 
     @classmethod
     def from_latent_variable_dag(cls, graph: nx.DiGraph, tag: str | None = None) -> NxMixedGraph:
@@ -269,6 +274,7 @@ class NxMixedGraph:
                 for a, b in itt.combinations(graph.successors(node), 2):
                     rv.add_undirected_edge(a, b)
             else:
+                rv.add_node(node)
                 for child in graph.successors(node):
                     rv.add_directed_edge(node, child)
         return rv
